@@ -70,6 +70,15 @@ def check(ctx):
     from . import C12
 
     C12.check(ctx)
+    # ---------------- take: the helper tasks of the shuffle are named after the OUTPUT (unique per indexing), not the input
+    tkf = ctx.model.module("dask/array/slicing.py").func("take")
+    tk_ = find("token = M_v", tkf)
+    ok = len(tk_) == 1 and isinstance(tk_[0][1]["M_v"], ast.IfExp)
+    if ok:
+        v = tk_[0][1]["M_v"]
+        names = {n.id for n in ast.walk(v) if isinstance(n, ast.Name)}
+        ok = eqv(v.body, "outname.split('-')[-1]") and eqv(v.test, "'-' in outname") and "inname" not in names and eqv(v.orelse, "tokenize(outname, chunks, index, axis)")
+    ctx.ob("N1.take.split-token", tkf, "token of the shuffle-split/sorter/taker tasks = the output name's token (or tokenize(outname, chunks, index, axis))", ok, "" if ok else "two different fancy indexings of one array emit identically named helper tasks: computed together one reads the other's selection")
 
 
 def key_inputs(ctx, only=None, floor=80):
